@@ -25,7 +25,10 @@ def model_check(c, tier):
     d = run_tlc("Latch", os.path.join(vlib.SPEC, "MC_Latch_dev.cfg"), workers=2)
     if not d.deadlock:
         raise ToolError("PagerHeldAcrossLatch should deadlock")
-    c.cov["design_mutations_refuted"] = ["PagerHeldAcrossLatch (deadlock found)"]
+    d2 = run_tlc("Latch", os.path.join(vlib.SPEC, "MC_Latch_dev_recread.cfg"), workers=2)
+    if not d2.deadlock:
+        raise ToolError("RecursiveReadQueuesBehindWriter should deadlock")
+    c.cov["design_mutations_refuted"] = ["PagerHeldAcrossLatch (deadlock found)", "RecursiveReadQueuesBehindWriter (deadlock found; the code before fix 0f47055)"]
     model_check_pool(c, tier)
 
 
@@ -53,7 +56,7 @@ def conc_leg(c, wd, tier, seed, prop=PROP, n=None):
         s = seed * 1000 + k
         tp = os.path.join(wd, "conc-%d.ndjson" % s)
         try:
-            rc, so, _ = axv(["conc", "--seed", s, "--rounds", rounds, "--steps", 40 if tier == "quick" else 80, "--out", tp, "--dir", os.path.join(wd, "conc-db")], timeout=900, check=False)
+            rc, so, _ = axv(["conc", "--seed", s, "--rounds", rounds, "--steps", 40 if tier == "quick" else 80, "--shared-read", "--out", tp, "--dir", os.path.join(wd, "conc-db")], timeout=900, check=False)
         except ToolError:
             rc, so = "timeout", ""
         if rc != 0:
@@ -67,6 +70,8 @@ def conc_leg(c, wd, tier, seed, prop=PROP, n=None):
         c.add("client_threads", st["clients"])
         c.add("sessions", st["sessions"])
         c.add("distinct_statements", st.get("distinct_statements", 0))
+        c.add("perturbed_rounds", st.get("perturbed_rounds", 0))
+        c.add("injected_yields", st.get("injected_yields", 0))
         if st.get("hung"):
             p = vlib.save_replay(prop, "conc-%d-hang.ndjson" % s, tp)
             c.violation("a client thread did not return within the watchdog limit (deadlock or lost worker)", p)
@@ -83,8 +88,8 @@ def conc_leg(c, wd, tier, seed, prop=PROP, n=None):
 def run(tier, seed):
     c = Check(PROP, tier, seed, "exploration")
     wd = vlib.workdir("c14")
-    c.assumptions = ["schedules are sampled (seeded statement lists, OS scheduling, injected yields and sleeps), not enumerated: the level is exploration",
-                     "clients never touch the same rows (own table per writer, read-only tables for readers), so the merge of all calls by completion number is a "
+    c.assumptions = ["schedules are sampled (seeded statement lists, OS scheduling, yields and sleeps injected between calls and - every other round, through the yield-point hook - before and after every page latch inside the engine), not enumerated: the level is exploration",
+                     "clients never write the same rows (own table per writer; readers read the read-only tables with checked results and scan the writers' tables with unchecked results), so the merge of all calls by completion number is a "
                      "legal serial order and every result is determined by the client's own history; concurrent writers on one table are not exercised "
                      "(finding NoWriteSetValidation: conflicting writers are not detected)",
                      "no VACUUM / checkpoint while clients run (VACUUM aborts every active transaction by design; checkpoint with open transactions is a recorded finding)",
